@@ -15,7 +15,7 @@ T_QUICK, T_THOROUGH = 75, 1500
 FLOORS = {"graphs": 800, "builds": 150, "with_fieldless": 150, "cyclic": 100, "order_edges_checked": 5000,
           "guards_checked": 4000, "duplicate_roots": 100, "with_depends_on": 200, "kernels_built_and_called": 50,
           "with_hybrid_depends_on": 100, "late_edges": 100, "sorted_once_before_cycle": 20,
-          "stale_same_named_class_listed_first": 60}
+          "stale_same_named_class_listed_first": 60, "with_depends_on_on_array_or_union": 100}
 RULE = ("random dependency DAGs of 2-10 classes of every kind (structs with nested/array/Ref/UnionRef fields, field-less "
         "structs, hybrid classes, array classes, union references, Ref types, declared _depends_on edges on structs and on "
         "hybrid classes naming plain and hybrid classes), random root subsets, orders "
@@ -117,13 +117,28 @@ def gen_graph(rng):
                 an.array_of_refs = True
             elif cands and rng.random() < 0.7:
                 d = rng.choice(cands)
-                add("A", type(f"{pre}A{i}", (d.cls[rng.choice([3, slice(None), (2, slice(None))])],), {}), [d])
+                ns, extra = {}, []
+                if len(cands) > 1 and rng.random() < 0.3:
+                    extra = [e for e in rng.sample(cands, 1) if e is not d]
+                    if extra:
+                        ns["_depends_on"] = [e.cls for e in extra]  # a declared dependency on a named array class
+                an = add("A", type(f"{pre}A{i}", (d.cls[rng.choice([3, slice(None), (2, slice(None))])],), ns), [d] + extra)
+                an.has_dep_on = bool(extra)
+                an.nonstruct_dep_on = bool(extra)
             else:
                 add("A", type(f"{pre}A{i}", (SC[rng.choice(["Float64", "Int32"])][rng.choice([3, slice(None)])],), {}), [])
         else:
             if cands:
                 ms = rng.sample(cands, min(len(cands), rng.randint(1, 3)))
-                add("U", type(f"{pre}U{i}", (xo.UnionRef,), {"_reftypes": [m.cls for m in ms]}), ms)
+                ns = {"_reftypes": [m.cls for m in ms]}
+                extra = []
+                if rng.random() < 0.35:
+                    extra = [e for e in rng.sample(cands, 1) if e not in ms]
+                    if extra:
+                        ns["_depends_on"] = [e.cls for e in extra]  # a declared dependency on a union
+                un = add("U", type(f"{pre}U{i}", (xo.UnionRef,), ns), ms + extra)
+                un.has_dep_on = bool(extra)
+                un.nonstruct_dep_on = bool(extra)
             else:
                 add("A", type(f"{pre}A{i}", (SC["Int64"][4],), {}), [])
     return nodes
@@ -225,6 +240,13 @@ def run_case(w, rng):
         w.count("with_fieldless")
     if any(getattr(n, "has_dep_on", False) for n in closure(roots).values()):
         w.count("with_depends_on")
+    if any(getattr(n, "nonstruct_dep_on", False) for n in closure(roots).values()):
+        w.count("with_depends_on_on_array_or_union")
+        if rng.random() < 0.5:
+            try:  # several sorts in one process must agree
+                sort_classes([r.cls for r in roots])
+            except Exception:
+                pass
     if any(getattr(n, "hybrid_dep_on", False) for n in closure(roots).values()):
         w.count("with_hybrid_depends_on")
     root_classes = [r.cls for r in roots]
